@@ -3,6 +3,7 @@ package main
 import (
 	"fmt"
 	"go/types"
+	"os"
 	"sort"
 	"strings"
 
@@ -270,6 +271,27 @@ func (x *Executor) blanket(fr *Frame, st *State, callee *ssa.Function, args []Va
 			return Val{}, false
 		}
 		rule = "sync locks are no-ops (each function under contract runs atomically)"
+		if os.Getenv("GOVC_DEBUG_LOCK") != "" { fmt.Fprintf(os.Stderr, "[lock] %s args=%d addr=%v T=%q\n", key, len(args), len(args) > 0 && args[0].Addr != nil, func() string { if len(args) > 0 { return args[0].T }; return "" }()) }
+		// count acquisitions and releases per mutex (see heldComp)
+		if len(args) >= 1 && args[0].Addr == nil && args[0].T != "" {
+			d, off := 0, 0
+			switch key {
+			case "Mutex.Lock", "RWMutex.Lock":
+				d = 1
+			case "Mutex.Unlock", "RWMutex.Unlock":
+				d = -1
+			case "RWMutex.RLock":
+				d, off = 1, 1
+			case "RWMutex.RUnlock":
+				d, off = -1, 1
+			}
+			if d != 0 {
+				u.ensureHeldComp()
+				h := x.heapGet(st, heldComp)
+				ix := fmt.Sprintf("(+ (* 2 %s) %d)", args[0].T, off)
+				x.heapSet(st, heldComp, fmt.Sprintf("(store %s %s (+ (select %s %s) %d))", h, ix, h, ix, d))
+			}
+		}
 	case pkgPath == "sync/atomic":
 		return Val{}, false
 	case strings.HasSuffix(pkgPath, "/lib/log") || pkgPath == "log":
@@ -368,6 +390,9 @@ func (x *Executor) havocAll(st *State) {
 	}
 	sort.Strings(cs)
 	for _, c := range cs {
+		if c == heldComp {
+			continue // callees are assumed to release what they acquire
+		}
 		if c == allocComp {
 			old := x.heapGet(st, allocComp)
 			n := x.heapHavoc(st, c)
@@ -412,10 +437,25 @@ func (x *Executor) execInvoke(fr *Frame, st *State, reach string, call *ssa.Call
 	}
 	// contract attached to the interface method
 	if n, ok := it.(*types.Named); ok && n.Obj().Pkg() != nil {
-		if con := u.eng.specs.Contracts[n.Obj().Pkg().Path()][n.Obj().Name()+"."+mname]; con != nil {
+		con := u.eng.specs.Contracts[n.Obj().Pkg().Path()][n.Obj().Name()+"."+mname]
+		// a contract for this interface stated in the package of the function under verification
+		// (receiver written pkgalias.Iface) takes precedence there
+		if x.topPkg != nil {
+			if lc := u.eng.specs.Contracts[x.topPkg.Path()][n.Obj().Name()+"."+mname]; lc != nil && lc.RecvQual != "" {
+				if ip := u.findImport(x.topPkg, lc.RecvQual); ip != nil && ip.Path() == n.Obj().Pkg().Path() {
+					con = lc
+				}
+			}
+		}
+		if con != nil {
 			con.Used = true
 			x.check(fr, "nil", fmt.Sprintf("(not (= (i.tag %s) 0))", recv.T), reach, "method call on nil interface")
-			return x.applyContract(fr, st, reach, con, call.Signature(), append([]Val{recv}, args...), resTy, n.Obj().Name()+"."+mname)
+			pre := st.clone()
+			res := x.applyContract(fr, st, reach, con, call.Signature(), append([]Val{recv}, args...), resTy, n.Obj().Name()+"."+mname)
+			if con.ModSet && !con.ModAll && len(con.Modifies) == 0 {
+				x.refineByImplementers(fr, st, pre, reach, n, mname, recv, args, res)
+			}
+			return res
 		}
 	}
 	// error.Error(), Stringer.String(): pure
@@ -435,6 +475,91 @@ func (x *Executor) execInvoke(fr *Frame, st *State, reach string, call *ssa.Call
 	}
 	x.check(fr, "nil", fmt.Sprintf("(not (= (i.tag %s) 0))", recv.T), reach, "method call on nil interface")
 	return x.havocCall(fr, st, reach, "interface call "+it.String()+"."+mname, append([]Val{recv}, args...), resTy)
+}
+
+// refineByImplementers: a call of an interface method whose interface contract is pure ("modifies
+// nothing") is refined by the contracts of the types implementing the interface in the interface's own
+// package: for each implementer T whose contract for the method is pure as well, the call site proves
+// T's preconditions and assumes T's postconditions under the guard "the dynamic type is T" -- exactly
+// what a direct call of T's method would do.
+func (x *Executor) refineByImplementers(fr *Frame, st, pre *State, reach string, it *types.Named, mname string, recv Val, args []Val, res Val) {
+	u := x.u
+	pkg := it.Obj().Pkg()
+	iface, ok := it.Underlying().(*types.Interface)
+	if !ok || pkg == nil {
+		return
+	}
+	cons := u.eng.specs.Contracts[pkg.Path()]
+	var keys []string
+	for k := range cons {
+		keys = append(keys, k)
+	}
+	sort.Strings(keys)
+	assumeReqs := x.topCon != nil && x.topCon.Opts["assumecallreqs"] != ""
+	for _, k := range keys {
+		con := cons[k]
+		if con.Name != mname || con.Recv == "" || con.Aspect > 0 || !con.ModSet || con.ModAll || len(con.Modifies) != 0 {
+			continue
+		}
+		tn, ok := pkg.Scope().Lookup(con.Recv).(*types.TypeName)
+		if !ok {
+			continue
+		}
+		if _, isI := tn.Type().Underlying().(*types.Interface); isI {
+			continue
+		}
+		var T types.Type = tn.Type()
+		if con.RecvPtr {
+			T = types.NewPointer(T)
+		}
+		if !types.Implements(T, iface) || len(con.Params) != len(args)+1 {
+			continue
+		}
+		con.Used = true
+		guard := fmt.Sprintf("(and %s (= (i.tag %s) %s))", reach, recv.T, u.typeTag(T))
+		vars := map[string]Val{con.Params[0]: {T: x.unboxIface(recv.T, T), Ty: T}}
+		for i, a := range args {
+			vars[con.Params[i+1]] = a
+		}
+		cpkg := u.eng.typesPkg(con.PkgPath)
+		env := &Env{x: x, u: u, vars: vars, bound: map[string]Val{}, st: pre, old: pre, pkg: cpkg}
+		for _, r := range con.Requires {
+			t, err := env.Eval(r.E)
+			if assumeReqs {
+				if err == nil {
+					u.assume(fmt.Sprintf("(=> %s %s)", guard, t.T))
+				}
+				continue
+			}
+			o := &Obligation{Name: fmt.Sprintf("%s#call:%s:requires%s@dyn", fr.prefix, con.Key(), clauseLabel(r)), Kind: "requires@call", Clause: r.Src, For: r.For}
+			if err != nil {
+				o.Fail = err.Error()
+			} else {
+				o.Goal = fmt.Sprintf("(=> %s %s)", guard, t.T)
+			}
+			u.addObl(o)
+		}
+		if len(con.Results) == 1 {
+			vars[con.Results[0]] = res
+		} else {
+			for i, rn := range con.Results {
+				if i < len(res.Tup) {
+					vars[rn] = res.Tup[i]
+				}
+			}
+		}
+		env2 := &Env{x: x, u: u, vars: vars, bound: map[string]Val{}, st: st, old: pre, pkg: cpkg}
+		for _, en := range con.Ensures {
+			t, err := env2.Eval(en.E)
+			if err != nil {
+				continue // stated over the implementer's own locals: nothing a caller can use
+			}
+			u.assume(fmt.Sprintf("(=> %s %s)", guard, t.T))
+		}
+		if con.Trusted {
+			u.trusted["trusted contract: "+strings.TrimPrefix(con.PkgPath, repoModule+"/")+"."+con.Key()] = true
+		}
+	}
 }
 
 // ------------------------------------------------------------------ contracts at call sites
